@@ -1538,6 +1538,16 @@ package leveldb
 //@   safety off
 //@   ensures [C04,C06,C19:a-number-never-handed-out-before] result == old(s.stNextFileNum) && s.stNextFileNum == old(s.stNextFileNum) + 1
 
+// C06 / C07 / C04: a file number is taken back only when it is the last one handed out - the counter stands right
+// behind it. Taken back while later numbers are in use, the counter would hand those out again: a retried compaction
+// writes its output over a live table.
+//@ func (*session).reuseFileNum
+//@   props C06 C07 C04
+//@   safety off
+//@   loop 1
+//@     invariant [C04,C06,C07:the-counter-moves-only-by-the-swap] s.stNextFileNum == old(s.stNextFileNum)
+//@   ensures [C04,C06,C07:a-number-is-taken-back-only-if-it-was-the-last-handed-out] (old(s.stNextFileNum) == num + 1 ==> s.stNextFileNum == num) && (old(s.stNextFileNum) != num + 1 ==> s.stNextFileNum == old(s.stNextFileNum))
+
 //@ func (*session).markFileNum
 //@   props C04 C19 C01
 //@   safety off
